@@ -23,6 +23,37 @@ TECHNIQUE = "finite truth-table evaluation of the scope predicate + normalised f
 FIXTURE_EXPECT = ["c09.formula"]
 
 
+def eval_path_conditions(sc, conds, atoms):
+    """do all the (condition node, switch edge) pairs hold under the assignment?  -> bool or ('stuck', text)"""
+    prev = atoms.inliner
+    atoms.inliner = lambda n: TB.inline_predicate(sc.prog, n, atoms, 0)
+    try:
+        for (n, tk) in conds:
+            v = atoms.value(strip(n))
+            if v is None:
+                return ("stuck", show(strip(n))[:120])
+            if tk.startswith("else:"):
+                holds = v not in tk[5:].split(",")
+            else:
+                holds = v == tk
+            if not holds:
+                return False
+        return True
+    finally:
+        atoms.inliner = prev
+
+
+def scope_from_update(sc, bb, elem_prefix):
+    """the selection that an accumulation site is subject to: the conditions on the iterated element that dominate it (loop `continue`s, nested
+    ifs, the call sites of the helpers it sits in), as a pseudo-predicate for scope_table"""
+    conds = []
+    for (s_, d, n, tk) in sc.conditions(bb):
+        txt = show(strip(n))
+        if elem_prefix in txt and not (strip(n)[0] == "discr" and ("next(" in txt or "branch(" in txt)):
+            conds.append((n, tk))
+    return ("conds", sc, conds)
+
+
 def scope_table(ctx, rule, key, sc, fields, enums, expect, loc):
     """truth table of a selection predicate (one filter closure or the conjunction of several over the same source) against the statement.
     Comparisons on quantities that are not atoms of the statement are enumerated as free atoms: a selection that depends on one is a finding."""
@@ -45,7 +76,7 @@ def scope_table(ctx, rule, key, sc, fields, enums, expect, loc):
                 at.free_values = dict(zip(sorted(free), fv))
                 val = True
                 for s1 in scs:
-                    v = TB.eval_predicate(s1, at)
+                    v = eval_path_conditions(s1[1], s1[2], at) if isinstance(s1, tuple) else TB.eval_predicate(s1, at)
                     if not isinstance(v, bool):
                         stuck = v
                         break
@@ -102,7 +133,11 @@ def run(ctx):
     root = Scope(prog, f)
     bt = [v["name"] for v in prog.adt("bemodel::types::common::BoundaryType")["variants"]]
     filt = [ch for (b, t, ch) in root.children() if ch.via[0] == "filter" and (ch.via[1].source_name() or "").endswith("props.walls")]
-    ctx.require(len(filt) >= 1, "N50Data::from: wall filter not found")
+    if not filt:
+        # no filter closure: the selection may be written as `continue`s in a for loop; read it off the site that accumulates the opaque area
+        site = [u for u in updates(root) if u["op"] == "+=" and u["dest"].endswith("walls_a") and "props.walls[]" in show(u["term"])]
+        ctx.require(len(site) == 1, "N50Data::from: neither a wall filter nor a single accumulation of the opaque area over props.walls was found")
+        filt = [scope_from_update(site[0]["scope"], site[0]["bb"], "props.walls[]")]
     scope_table(ctx, "c09.scope", "c09.scope|walls", filt, ["is_tenv", "bounds"], {"bounds": bt},
                 lambda a: a["is_tenv"] and a["bounds"] == "EXTERIOR", f.loc())
     # windows of the wall: win.wall == wall_id
